@@ -119,6 +119,55 @@ def directed_scenarios(ctx, delay_in_script):
                           "with a $IN transform the report body depends on the hashing pool size", payload, found_input=True)
 
 
+def faulted_pool_scenarios(ctx):
+    """many unreadable files (every open fails) in one size class: the report body is the same for every thread-pool setting
+    and every run finishes (a pool of one thread must cope with more failures than it has task slots)"""
+    import shutil
+    from . import midrun_rt
+    shim = midrun_rt._shim()
+    for i in range(ctx.pick(2, 12)):
+        rng = ctx.rng.fork()
+        base = os.path.join(ctx.scratch, "fpool%d" % i)
+        root = os.path.join(base, "r")
+        shutil.rmtree(base, ignore_errors=True)
+        size = rng.choice([100, 5000, 70000])
+        good = treegen.content(rng.next(), size)
+        nbad = rng.choice([9, 17, 40])
+        for k in range(5):
+            p = os.path.join(root, "good", "g%d" % k)
+            os.makedirs(os.path.dirname(p), exist_ok=True)
+            with open(p, "wb") as f:
+                f.write(good if k < 3 else treegen.content(rng.next(), size))
+        for k in range(nbad):
+            p = os.path.join(root, "bad", "b%02d" % k)
+            os.makedirs(os.path.dirname(p), exist_ok=True)
+            with open(p, "wb") as f:
+                f.write(good if k % 4 == 0 else treegen.content(2000 + k // 2, size))
+        eno = rng.choice([13, 5])
+        env = {"FCLONES_VERIF_DISK_KIND": rng.choice(["ssd", "hdd"]), "LD_PRELOAD": shim, "RDSHIM_PATH": os.path.join(root, "bad"),
+               "RDSHIM_MATCH": "prefix", "RDSHIM_CALL": "open", "RDSHIM_ERRNO": str(eno), "RDSHIM_NTH": "0"}
+        ref = None
+        for threads in (["--threads", "64"], ["--threads", "1"], [], ["--threads", "main:1", "--threads", "default:2"]):
+            rc, out, err = treegen.fclones(["group", root, "-f", "json", "--rf-over", "0"] + threads, env=env, timeout=60)
+            ctx.count()
+            ctx.distinct(("fpool", i, tuple(threads)), True)
+            ctx.bump("variation", "threads_under_faults")
+            payload = {"scenario": "%d files under %s/bad fail every open (errno %d)" % (nbad, root, eno), "threads": threads,
+                       "stderr": err.decode("utf-8", "replace")[-300:]}
+            if rc != 0:
+                ctx.violation({"kind": "hang" if rc == -9 else "run_failed", "variation": "threads_under_faults"},
+                              "fclones group %s with %s" % ("did not finish within 60 s" if rc == -9 else "exited %d" % rc, threads or "default pools"),
+                              payload, found_input=True)
+                continue
+            key = treegen.body_key(treegen.parse_json_report(out.decode("utf-8"))[1])
+            if ref is None:
+                ref = key
+            elif key != ref:
+                ctx.violation({"kind": "body_differs", "variation": "threads_under_faults"},
+                              "under read faults the report body depends on the thread-pool setting", payload, found_input=True)
+        shutil.rmtree(base, ignore_errors=True)
+
+
 def run(ctx):
     ctx.rule = ("generated trees (duplicate classes over several roots, hard links, sizes around the 4 KiB prefix / 64 KiB "
                 "buffer / 64 KiB suffix threshold of the SSD pin) x variations; an evaluation is one run of the binary; a case "
@@ -242,5 +291,9 @@ def run(ctx):
     # model-level hook (engine G): the extracted model, which Props_C13.v is about, under other nondeterminism records and
     # scan orders must print the body fclones::group_files returned
     directed_scenarios(ctx, delay_in_script)
+    faulted_pool_scenarios(ctx)
+    # the cache is a performance setting: files that join / leave a class by in-place rewrites between cached runs
+    from . import midrun_rt
+    midrun_rt.restore_older_check(ctx, ctx.pick(8, 100))
     grp_common.model_schedule_check(ctx, ctx.pick(40, 400))
 
